@@ -27,6 +27,8 @@ func VerifC16NoOpts() {
 var credCtx = []vctx{
 	{"http://", "@h/p"}, {"http://u:", "@h:8/p#f"}, {"a://", "@h/"}, {"http://h:", "/p"}, {"ws://u@h:", ""}, {"a://h:", "/p?q#f"},
 	{"a:b  #", ""}, {"a:b ", ""}, {"http://h/p#", ""}, {"a:x y  ?q#", ""}, {"http://:", "@h/"},
+	// an empty-but-present query or fragment next to an opaque path that ends in spaces
+	{"a:b  ?#", ""}, {"a:b  ?", "#f"}, {"a:b  #", "?"}, {"a:b  ", "#"},
 }
 
 // VerifC16RemoveX: remove-user-info / remove-port / remove-fragment yield exactly what the
@@ -359,6 +361,112 @@ func VerifC16Neutral() {
 	}
 }
 
+// neutralOption: option number -> parser option, name and the trigger predicate on a text.
+func neutralOption(i int) (url.ParserOption, string) {
+	switch i {
+	case 0:
+		return url.WithAcceptInvalidCodepoints(), "accept-invalid-code-points"
+	case 1:
+		return url.WithPercentEncodeSinglePercentSign(), "percent-encode-single-percent-sign"
+	case 2:
+		return url.WithCollapseConsecutiveSlashes(), "collapse-consecutive-slashes"
+	case 3:
+		return url.WithSkipWindowsDriveLetterNormalization(), "skip-drive-letter-normalization"
+	case 4:
+		return url.WithSpecialSchemes(gopherSchemes), "special-schemes"
+	}
+	return url.WithLaxHostParsing(), "lax-host-parsing"
+}
+
+func neutralTrigger(i int, text string) bool {
+	switch i {
+	case 0:
+		return !validUTF8(text)
+	case 1:
+		return !allPercentsAreEscapes(text)
+	case 2:
+		return slashRun(text)
+	case 3:
+		return hasByte(text, '|')
+	case 4:
+		return startsWithScheme(text, "gopher")
+	}
+	return false
+}
+
+func applySetterByIndex(u *url.Url, i int, v string) {
+	switch i {
+	case 0:
+		u.SetUsername(v)
+	case 1:
+		u.SetPassword(v)
+	case 2:
+		u.SetHost(v)
+	case 3:
+		u.SetHostname(v)
+	case 4:
+		u.SetPathname(v)
+	case 5:
+		u.SetSearch(v)
+	case 6:
+		u.SetHash(v)
+	case 7:
+		u.SetProtocol(v)
+	case 8:
+		u.SetPort(v)
+	}
+}
+
+// VerifC16NeutralSetters: the conservative-extension clause through the setters: a URL parsed by a parser
+// with one relaxing option (or two of them) and the same URL parsed by the default parser stay equal
+// under the same setter call, as long as neither the start URL nor the value contains a trigger of the
+// options in force (and, for lax host parsing, the default parser accepts the host value).
+func VerifC16NeutralSetters() {
+	starts := []string{"http://u@h/p?q#f", "a://h/p"}
+	start := starts[vnd.Pick(len(starts))]
+	o1 := vnd.Pick(6)
+	opt1, name := neutralOption(o1)
+	opts := []url.ParserOption{opt1}
+	o2 := -1
+	if vnd.Bool() {
+		// a second option: combinations
+		o2 = (o1 + 1 + vnd.Pick(5)) % 6
+		opt2, name2 := neutralOption(o2)
+		opts = append(opts, opt2)
+		name = name + " + " + name2
+	}
+	p := url.NewParser(opts...)
+	v := vnd.StrOver(vnd.Len(vnd.Param("C16.KNeutralSet", 3, 4)), "%41a|/\\ \xff")
+	if neutralTrigger(o1, v) || (o2 >= 0 && neutralTrigger(o2, v)) {
+		vnd.Cover("setter-trigger-present", true)
+		return
+	}
+	si := vnd.Pick(9)
+	u, err := p.Parse(start)
+	d, derr := url.Parse(start)
+	if err != nil || derr != nil {
+		return
+	}
+	applySetterByIndex(d, si, v)
+	applySetterByIndex(u, si, v)
+	if (o1 == 5 || o2 == 5) && (si == 2 || si == 3) {
+		// lax host parsing: its trigger is "a host the default parser rejects": the default parser's
+		// setter leaves the host unchanged exactly then
+		// (probed in the start URL's own scheme class: opaque and domain hosts have different rules)
+		pre := "http://"
+		if start[0] == 'a' {
+			pre = "a://"
+		}
+		if _, perr := url.Parse(pre + v + "/"); perr != nil {
+			return
+		}
+	}
+	vnd.Cover("setter-trigger-absent", true)
+	if x := verifCheckSnap(snapImpl(u, nil), snapImpl(d, nil)); x != "" {
+		vnd.Fail("option " + name + " changed the result of a setter call whose value has no trigger: " + x)
+	}
+}
+
 func pctEncodeByte(c byte) string {
 	const hexd = "0123456789ABCDEF"
 	return string([]byte{'%', hexd[c>>4], hexd[c&15]})
@@ -508,6 +616,7 @@ func VerifC16Effects() {
 }
 
 func init() {
+	verifHarnesses["VerifC16NeutralSetters"] = VerifC16NeutralSetters
 	verifHarnesses["VerifC16NoOpts"] = VerifC16NoOpts
 	verifHarnesses["VerifC16RemoveX"] = VerifC16RemoveX
 	verifHarnesses["VerifC16SortQuery"] = VerifC16SortQuery
